@@ -47,6 +47,10 @@ def typed_priors(fmt: str) -> dict:
     for oo in (0x01, 0x02, 0x03, 0x04, 0x05, 0x06, 0xFE, 0xFD, 0xFC, 0xFB, 0xFA, 0xF9):
         for name, soc, months in (("ok", "0064", "0000"), ("socffff", "ffff", "0000"), ("soc101", "0065", "0000"), ("monthsffff", "0064", "ffff")):
             out[f"t{oo:02x}_{name}"] = "0d1e0e28" + f"{oo:02x}" + "1a" + "0032" + soc + months      # not an every-day 24 h group
+    # every-day 24 h groups that are switched OFF (typed off codes 1..6, "not set"), charging and discharging power
+    for oo in (0x01, 0x02, 0x03, 0x04, 0x05, 0x06, 0x55):
+        for pname, pw in (("chg", "ffce"), ("dis", "0032")):
+            out[f"off247_{oo:02x}_{pname}"] = "0000173b" + f"{oo:02x}" + "7f" + pw + "0064" + "0000"
     return out
 
 
@@ -268,7 +272,7 @@ def check(prop: str, tier: str, seed: int) -> int:
                     others = ("zeros", "charge247", "discharge247" if variant[6] != "v2" else "peak")[len(progs) % 3]
                     progs.append(mode_program(variant, prior, hx, mode, p, s, others, start_mode=(len(progs) // 3) % 6))
         for prior, hx in typed_priors(variant[6]).items():
-            for mode in ((98, 99, 3) if quick else (0, 1, 2, 3, 4, 5, 98, 99)):
+            for mode in ((98, 99, 3) if quick else (0, 1, 2, 3, 4, 5, 98, 99)) if not prior.startswith('off247') else (3, 98, 99, 0):
                 for p, s in (grid[2:3] if quick else grid[:3]):
                     progs.append(mode_program(variant, prior, hx, mode, p, s, "zeros", start_mode=(len(progs) // 3) % 6))
     if not quick:
